@@ -28,3 +28,80 @@ open Sim SimM
 @[simp] theorem Sim.setCCOf_flags (s : Sim) (r : W) : (s.setCCOf r).flags = s.flags := rfl
 
 end Lc3V
+
+namespace Lc3V
+open Sim SimM
+
+theorem Sim.memAt_setMem (s : Sim) (a b : W) (w : Word) :
+    (s.setMem a w).memAt b = if a = b then w else s.memAt b := by
+  unfold Sim.memAt Sim.setMem
+  simp only [Vector.getElem_set]
+  by_cases h : a = b
+  · subst h; simp
+  · have : ¬ a.toNat = b.toNat := fun e => h (BitVec.eq_of_toNat_eq e)
+    simp [h, this]
+
+theorem Sim.reg_setReg (s : Sim) (a b : Reg) (w : Word) :
+    (s.setReg a w).reg b = if a = b then w else s.reg b := by
+  unfold Sim.reg Sim.setReg
+  simp only [Vector.getElem_set]
+  by_cases h : a = b
+  · subst h; simp
+  · have : ¬ a.toNat = b.toNat := fun e => h (BitVec.eq_of_toNat_eq e)
+    simp [h, this]
+
+@[simp] theorem Sim.reg_setMem (s : Sim) (a : W) (w : Word) (r : Reg) : (s.setMem a w).reg r = s.reg r := rfl
+@[simp] theorem Sim.memAt_setReg (s : Sim) (r : Reg) (w : Word) (a : W) : (s.setReg r w).memAt a = s.memAt a := rfl
+
+/-- explicit result of a permitted, tracked, non-strict write below the I/O page -/
+theorem Sim.writeMem_plain_eq (s : Sim) (a : W) (w : Word) (c : Ctx) (hp : c.privileged = true ∨ inUser a = true)
+    (hio : a.toNat < IO_START) (hs : c.strict = false) (ht : c.track = true) :
+    writeMem a w c s = (.ok (),
+      ({ s with log := ⟨a, true, c.privileged, true⟩ :: s.log,
+                observer := obsUpdate s.observer a (OBS_WRITTEN ||| (bif s.memAt a != w then OBS_MODIFIED else 0)) } : Sim).setMem a w) := by
+  have hg : (!c.privileged && !inUser a) = false := by rcases hp with h | h <;> simp [h]
+  have hio' : ¬ IO_START ≤ a.toNat := by omega
+  unfold writeMem
+  simp only [hg, ioWritePart, storePart, hio', ht, hs, Bool.false_eq_true, if_false, if_true, Word.setIfInit_nonstrict]
+
+/-- explicit result of a permitted, tracked read below the I/O page -/
+theorem Sim.readMem_plain_eq (s : Sim) (a : W) (c : Ctx) (hp : c.privileged = true ∨ inUser a = true)
+    (hio : a.toNat < IO_START) (ht : c.track = true) :
+    readMem a c s = (.ok (s.memAt a),
+      { s with log := ⟨a, false, c.privileged, true⟩ :: s.log, observer := obsUpdate s.observer a OBS_READ }) := by
+  have hg : (!c.privileged && !inUser a) = false := by rcases hp with h | h <;> simp [h]
+  have hio' : ¬ IO_START ≤ a.toNat := by omega
+  unfold readMem
+  simp only [hg, hio', ht, Bool.false_eq_true, if_false, if_true]
+
+end Lc3V
+
+namespace Lc3V
+open Sim SimM
+/-- in non-strict mode `set_pc` just sets the PC -/
+theorem Sim.setPc_nonstrict (s : Sim) (w : Word) (chk : Bool) (hs : s.flags.strict = false) :
+    setPc w chk s = (.ok (), { s with pc := w.data }) := by
+  unfold setPc
+  simp [hs]
+end Lc3V
+
+namespace Lc3V
+open Sim SimM
+/-- state after the tracked read of a vector-table entry -/
+def Sim.afterVectorRead (x : Sim) (vect : W) : Sim :=
+  { x with log := ⟨vect, false, x.defaultCtx.privileged, true⟩ :: x.log, observer := obsUpdate x.observer vect OBS_READ }
+
+/-- `call_interrupt` through a vector-table entry in plain memory, non-strict, privileged: read the vector (tracked),
+    push a frame whose caller is the interrupted/trapping instruction, jump -/
+theorem Sim.callInterrupt_plain (x : Sim) (vect : W) (ft : FrameType) (hs : x.flags.strict = false)
+    (hp : PSR.privileged x.psr = true) (hv : vect.toNat < IO_START) :
+    callInterrupt vect ft x = (.ok (),
+      { ((x.afterVectorRead vect).pushFrame (x.afterVectorRead vect).prefetchPc vect ft) with
+        pc := (x.memAt vect).data }) := by
+  unfold callInterrupt
+  simp only [SimM.bind_apply, SimM.getS_apply, SimM.modifyS_apply]
+  rw [Sim.readMem_plain_eq _ _ _ (Or.inl (by simp [defaultCtx, hp])) hv (by simp [defaultCtx])]
+  simp only [hs, Word.getIfInit_nonstrict, SimM.liftE_ok, SimM.modifyS_apply]
+  rw [Sim.setPc_nonstrict _ _ _ (by simp [hs])]
+  rfl
+end Lc3V
